@@ -15,7 +15,7 @@ def run(res, f, tier):
     ops = kind_ops(t, res)
     obligations = discharged = 0
     samples = []
-    for kind, fn in sorted(ops.items()):
+    for kind, fn in sorted((k, fn_) for k, fns in ops.items() for fn_ in fns):
         for combo, outs in sorted(t["cells"][fn].items()):
             if "None" not in combo:
                 continue
